@@ -322,6 +322,9 @@ class Exec:
         """decide a two-way fork; returns the Python truth value taken on this path"""
         if isinstance(cond, bool):
             return cond
+        if time.time() > self.engine.task_deadline:
+            # a function that sends the executor into ever more paths / ever deeper inlining is undecided, never a hang
+            raise Unsupported('time budget of %d s for one function exceeded' % self.engine.task_budget_s)
         cond = L.simp(cond)
         if L.is_true(cond):
             return True
@@ -373,6 +376,8 @@ class Exec:
             props |= self.engine.carry[self.task.role]
         if self.task is not None and getattr(self.task, 'carried_by', None) and not soft:
             props |= self.task.carried_by
+        if self.task is not None and 'C07' in props and self.task.role in self.engine.carry_c07[0]:
+            props |= self.engine.carry_c07[1]
         if getattr(self, 'in_prologue', False):
             # the creator of a closure is verified by its own task; here it only builds the environment
             if not isinstance(goal, bool):
@@ -1036,6 +1041,36 @@ class Exec:
             obj = self.eval(target.value, env)
             key = self.eval_subscript_key(target.slice, env)
             self.engine.model.setitem(self, obj, key, self.to_val(v))
+            return
+        if isinstance(target, (ast.Tuple, ast.List)) and any(isinstance(t, ast.Starred) for t in target.elts):
+            stars = [k for k, t in enumerate(target.elts) if isinstance(t, ast.Starred)]
+            if len(stars) != 1:
+                raise Unsupported('two starred targets')
+            pre, post = stars[0], len(target.elts) - stars[0] - 1
+            m = self.engine.model
+            if isinstance(v, tuple):
+                if len(v) < pre + post:
+                    self.raise_('ValueError', 'not enough values to unpack')
+                mid = L.ListV(self.new_list_from([self.to_val(x) for x in v[pre:len(v) - post]]))
+                vals = list(v[:pre]) + [mid] + list(v[len(v) - post:])
+            else:
+                v = self.to_val(v)
+                if not self.branch(z3.Or(L.is_List(v), L.is_Tuple(v)), 'unpack-seq'):
+                    self.may_raise(['Exception'], 'unpack of non-sequence')
+                    raise Unsupported('starred unpacking of a non-sequence')
+                n = m.seq_len(self, v)
+                if not self.branch(n >= pre + post, 'unpack-enough'):
+                    self.raise_('ValueError', 'not enough values to unpack')
+                r = m.seq_ref_b(self, v)
+                arr = z3.Const(self.fresh_name('starred'), z3.ArraySort(I, Val))
+                J = z3.Int('K_view')
+                self.assume(z3.Select(arr, J) == self.heap.lelt(r, J + pre))
+                self.note_array_elems(arr, ('from', r))
+                mid = L.ListV(self.new_list(n - pre - post, arr))
+                vals = [m.seq_get(self, v, z3.IntVal(k)) for k in range(pre)] + [mid] + \
+                       [m.seq_get(self, v, n - post + k) for k in range(post)]
+            for t, x in zip(target.elts, vals):
+                self.assign(t.value if isinstance(t, ast.Starred) else t, x, env)
             return
         if isinstance(target, (ast.Tuple, ast.List)):
             vals = self.engine.model.unpack(self, v, len(target.elts))
